@@ -833,6 +833,10 @@ func UnmarshalTypeCases(value *yaml.Node) (TypeCases, error) {
 			cases = append(cases, &TypeCase{Type: t, NodeMeta: createNodeMeta(c)})
 		}
 	default:
+		if value.Tag == "!!seq" {
+			// A node that is tagged as a sequence but is not one would come straight back to this function
+			return nil, parseError(value, "a list of types must be specified as a sequence")
+		}
 		t, err := UnmarshalTypeYAML(value)
 		if err != nil {
 			return nil, err
